@@ -6,6 +6,7 @@ import (
 	"regexp"
 	"sort"
 	"strings"
+	"unicode/utf8"
 
 	"github.com/robertkrimen/otto/parser"
 	"github.com/robfig/soy"
@@ -125,7 +126,9 @@ func checkC14(c *Ctx) {
 			lits = append(lits, a+b, "x"+a+b+"y")
 		}
 	}
-	lits = append(lits, "", "</script>", "<!--", "]]>", "é", "日本", "\u0085", "\ufeff", "a\\", "\\'", "\\\"", "\\n", "'+alert(1)+'", "\"+x+\"", "${x}", "`", "a'b\"c\\d", strings.Repeat("ab'\"\\\n<", 1500), "\x7f", "\x01\x02", "line1\nline2", "tab\there")
+	lits = append(lits, "", "</script>", "<!--", "]]>", "é", "日本", "\u0085", "\ufeff", "a\\", "\\'", "\\\"", "\\n", "'+alert(1)+'", "\"+x+\"", "${x}", "`", "a'b\"c\\d", strings.Repeat("ab'\"\\\n<", 1500), "\x7f", "\x01\x02", "line1\nline2", "tab\there",
+		// characters outside the basic plane and characters that are not printable (an escaper must spell them so that the engine reads them back)
+		"\U0001F600", "\U000E0001", "a\U000F0000b", "\U0010FFFF", "\u200b", "\u00ad", "\ufffe", "x\u0600y", "\U0001D11E\U000E0020")
 	// long non-ASCII runs at shifting byte offsets (a generator that chunks long text must not cut a character)
 	for off := 0; off < 4; off++ {
 		pre := strings.Repeat("a", off)
@@ -194,10 +197,10 @@ func checkC14(c *Ctx) {
 			if err != nil {
 				c.Violate("calling the template returns", "mismatch", "call:"+sig, cs, clipq(L), err.Error())
 			} else if o.name == "css name after a prefix expression" {
-				if out != "pre-"+L && isASCII(L) {
+				if out != "pre-"+L && utf8.ValidString(L) {
 					c.Violate("every string that originates in the template denotes exactly the original characters", "mismatch", "literal:"+sig, cs, clipq("pre-"+L), clipq(out))
 				}
-			} else if out != L && isASCII(L) {
+			} else if out != L && utf8.ValidString(L) {
 				c.Violate("every string that originates in the template denotes exactly the original characters", "mismatch", "literal:"+sig, cs, clipq(L), clipq(out))
 			} else if out != L {
 				c.Count("non_ascii_literal_not_compared", 1)
